@@ -130,6 +130,29 @@ def build_wrappers(vacuity=False):
     return ex, woven, info, path
 
 
+def build_parser(vacuity=False):
+    """R19p: the third verification unit (protocol-name parser against the Noise name grammar)"""
+    ex = X.extract_parser(REPO)
+    import gen_patterns as G
+    try:
+        names = G.pattern_names(open(os.path.join(ROOT, 'spec', 'noise_patterns.txt')).read())
+    except G.PatternFileError as e:
+        raise Undecided('spec/noise_patterns.txt: %s' % e)
+    spec = ''.join('//@@SPECFILE %s\n' % os.path.relpath(p, ROOT) + open(p).read() + '\n'
+                   for p in sorted(glob.glob(os.path.join(ROOT, 'spec', 'parser', '*.rs'))))
+    spec = spec.replace('//@GENERATED-PATTERN-NAMES@', G.parser_names_spec(names))
+    src = ex.text.replace('//@SPEC-MODULES@', spec)
+    vspecs = [(os.path.join('contracts', '00_error.vspec'), open(os.path.join(ROOT, 'contracts', '00_error.vspec')).read())]
+    vspecs += [(os.path.relpath(p, ROOT), open(p).read()) for p in sorted(glob.glob(os.path.join(ROOT, 'contracts', 'parser', '*.vspec')))]
+    woven, info = W.weave(src, vspecs, vacuity=vacuity)
+    if vacuity:
+        woven = lemma_vacuity_probes(woven, info)
+    os.makedirs(BUILD, exist_ok=True)
+    path = os.path.join(BUILD, 'snow_parser%s.rs' % ('_vacuity' if vacuity else ''))
+    open(path, 'w').write(woven)
+    return ex, woven, info, path
+
+
 # --------------------------------------------------------------------------- verus
 
 def run_verus(path, woven, extra=(), tag=''):
@@ -324,6 +347,10 @@ def map_diag(model, d, fname):
         label = meta['label']
         res['props'] = []
         res['clause'] = ''
+    elif res['kind'] == 'postcondition' and clause and 'from_str_post' in model.src_of(clause[0]['line_start']):
+        label = 'accepts_exactly_the_grammar_and_names_its_components'
+        res['props'] = list(model.entry_props.get(res['fn'], []))
+        res['clause'] = model.src_of(clause[0]['line_start'])
     else:
         label = 'safety'
         res['clause'] = model.src_of(clause[0]['line_start']) if clause else ''
@@ -331,10 +358,21 @@ def map_diag(model, d, fname):
     return res
 
 
+# functions the parser unit owns (the core unit keeps these `external`; everything else of params/error is verified in the core unit)
+PARSER_FNS = ('params::BaseChoice::from_str', 'params::DHChoice::from_str', 'params::CipherChoice::from_str', 'params::HashChoice::from_str',
+              'params::NoiseParams::from_str', 'params::NoiseParams::new', 'params::lemma_prim_literals',
+              'params::patterns::HandshakePattern::from_str', 'params::patterns::HandshakePattern::as_str',
+              'params::patterns::HandshakeModifier::from_str', 'params::patterns::HandshakeModifierList::from_str',
+              'params::patterns::HandshakeChoice::from_str', 'params::patterns::HandshakeChoice::parse_pattern_and_modifier',
+              'params::patterns::HandshakeChoice::is_fallback', 'params::patterns::lemma_handshake_pattern_unique',
+              'params::patterns::lemma_mod_literals', 'params::patterns::lemma_mod_tok_unique', 'params::patterns::lemma_modlist_first_char',
+              'params::patterns::lemma_pat_inj', 'params::patterns::lemma_pat_shape', 'pgram::', 'pspec::')
+
 UNITS = [
     {'name': 'core', 'build': 'core', 'flags': [], 'prefixes': None, 'trusted': 'trusted.txt'},
     {'name': 'wrappers', 'build': 'wrappers', 'flags': WRAPPER_CFG + ['--verify-module', 'resolvers::default'],
      'prefixes': ('resolvers::default::',), 'trusted': os.path.join('wrappers', 'trusted.txt')},
+    {'name': 'parser', 'build': 'parser', 'flags': [], 'prefixes': PARSER_FNS, 'trusted': os.path.join('parser', 'trusted.txt')},
 ]
 
 
@@ -357,6 +395,8 @@ def collect_unit(unit, vacuity=False):
             for fnid, cases in sorted(info.get('splits', {}).items()):
                 for case in cases:
                     variants.append((fnid, case))
+    elif unit['build'] == 'parser':
+        ex, woven, info, path = build_parser(vacuity=vacuity)
     else:
         ex, woven, info, path = build_wrappers(vacuity=vacuity)
     model = Model(woven, info)
@@ -491,7 +531,10 @@ def _obligations_unit(res, obs):
             o = obs.setdefault((fn, 'safety'), {'props': set(), 'kind': 'safety', 'texts': ['body: no panic (bounds, overflow, unwrap, assert!), callee preconditions, termination'], 'where': ''})
             o['props'].add('C10')
             o['props'].update(model.entry_props.get(fn, []))
-        elif st['mode'] == 'proof':
+        if st['mode'] == 'exec' and res['unit']['name'] == 'parser' and fn.endswith('::from_str'):
+            o = obs.setdefault((fn, 'accepts_exactly_the_grammar_and_names_its_components'), {'props': set(), 'kind': 'trait', 'texts': ['FromStr::from_str ensures Self::from_str_post(s, r) (the post-relation stated in contracts/parser for this type)'], 'where': 'spec/parser/00_strings.rs'})
+            o['props'].update(model.entry_props.get(fn, []))
+        if st['mode'] == 'proof':
             props = model.lemma_props.get(fn)
             if props:
                 o = obs.setdefault((fn, 'lemma'), {'props': set(), 'kind': 'lemma', 'texts': ['lemma statement'], 'where': ''})
@@ -502,7 +545,10 @@ def _obligations_unit(res, obs):
 
 TRUST_PATTERNS = [('assume', r'\bassume\s*\('), ('admit', r'\badmit\s*\(\s*\)'), ('external_body', r'external_body'),
                   ('external', r'verifier::external\b(?!_)'), ('assume_specification', r'assume_specification'),
-                  ('uninterp', r'\buninterp\s+spec\s+fn')]
+                  ('uninterp', r'\buninterp\s+spec\s+fn'),
+                  ('external_trait_specification', r'external_trait_specification'),
+                  ('external_type_specification', r'external_type_specification'),
+                  ('assumed_spec_impl', r'impl\s+(?:(?:[\w:]+::)?PartialEqSpecImpl\s+for\s+\w+|FromStrSpecImpl\s+for\s+u8\b)')]
 
 
 def trusted_scan(model):
